@@ -1897,7 +1897,9 @@ def pretty_str(s, ctx, split_pattern=None):
             pattern=split_pattern,
         ))
 
-        if len(lines) == 1:
+        if len(lines) <= 1:
+            # Nothing to split (the string may even be empty, in which case
+            # there are no pieces at all): print the single literal.
             return flat_version
 
         parts = intersperse(
